@@ -1,5 +1,6 @@
 import Enc.Driver.Ascii
 import Enc.Driver.Proto
+import Enc.Driver.ProtoRewrite
 import Enc.Driver.Iso
 import Enc.Driver.Thrift
 import Enc.Driver.Json
@@ -12,6 +13,7 @@ open Enc
 
 def dispatch (op : String) (args : List String) : Option (String × String × String) :=
   if op.startsWith "ascii." then Driver.Ascii.handle op args
+  else if op == "proto.msgrewrite" then Driver.ProtoRewrite.handle op args
   else if op.startsWith "proto." then Driver.Proto.handle op args
   else if op.startsWith "iso." then Driver.Iso.handle op args
   else if op.startsWith "thrift." then Driver.Thrift.handle op args
